@@ -457,10 +457,21 @@ def run(ctx: Context):
         for (n, w) in find_path_avoiding(cfg, nonnull, gate_edge=cap_writeable):
             r.violation(fn, fn.loc(n.ast), "a writekey is stored for a cap that was not shown to be writeable "
                         "(path: %s)" % w.brief(), w)
-        # every normal exit has passed a store (so that a stale key of a reused node cannot survive)
-        for (n, w) in find_path_avoiding(cfg, lambda x: x.kind == "exit", gate_node=stores("self._writekey")):
-            r.violation(fn, fn.loc(), "init_from_cap can return without (re)setting _writekey", w)
-        allowed = {"allmydata." + MF + ".init_from_cap", "allmydata." + MF + ".create_with_keys"}
+        # every normal exit has passed a store (a node has no _writekey attribute before), unless the
+        # constructor already binds it to None
+        ctor = idx.cls(MF).methods.get("__init__")
+        ctor_none = False
+        if ctor is not None:
+            cst = ctor.cfg().find(stores("self._writekey"))
+            ctor_none = bool(cst) and all(isinstance(n.ast, ast.Assign) and isinstance(n.ast.value, ast.Constant)
+                                          and n.ast.value.value is None for n in cst)
+            for n in cst:
+                r.require(ctor_none, ctor, ctor.loc(n.ast), "MutableFileNode.__init__ binds _writekey to a non-None value")
+        if not ctor_none:
+            for (n, w) in find_path_avoiding(cfg, lambda x: x.kind == "exit", gate_node=stores("self._writekey")):
+                r.violation(fn, fn.loc(), "init_from_cap can return without (re)setting _writekey", w)
+        allowed = {"allmydata." + MF + ".init_from_cap", "allmydata." + MF + ".create_with_keys",
+                   "allmydata." + MF + ".__init__"}
         for (f2, nd) in cg.attr_stores("_writekey"):
             if f2.cls is not None and f2.cls.name == "MutableFileNode" and f2.qual not in allowed:
                 r.violation(f2, f2.loc(nd), "%s re-binds MutableFileNode._writekey" % short(f2))
